@@ -102,8 +102,50 @@ func (c *Collection) Bounds() (minX, minY, maxX, maxY float64) {
 	if left == nil {
 		return
 	}
-	return left.Rect().Min.X, bottom.Rect().Min.Y,
-		right.Rect().Max.X, top.Rect().Max.Y
+	minX, minY = left.Rect().Min.X, bottom.Rect().Min.Y
+	maxX, maxY = right.Rect().Max.X, top.Rect().Max.Y
+	// The entries above are extreme by their index box, which is rounded
+	// outwards to float32 (and widened for circles): another object whose
+	// box starts no later can reach further with its own rectangle. Every
+	// such object has a box that crosses the value found so far.
+	inf := float32(math.Inf(+1))
+	c.spatial.Search([2]float32{-inf, -inf}, [2]float32{rtreeValueUp(minX), inf},
+		func(_, _ [2]float32, o *object.Object) bool {
+			minX = boundsMin(minX, o.Rect().Min.X)
+			return true
+		})
+	c.spatial.Search([2]float32{-inf, -inf}, [2]float32{inf, rtreeValueUp(minY)},
+		func(_, _ [2]float32, o *object.Object) bool {
+			minY = boundsMin(minY, o.Rect().Min.Y)
+			return true
+		})
+	c.spatial.Search([2]float32{rtreeValueDown(maxX), -inf}, [2]float32{inf, inf},
+		func(_, _ [2]float32, o *object.Object) bool {
+			maxX = boundsMax(maxX, o.Rect().Max.X)
+			return true
+		})
+	c.spatial.Search([2]float32{-inf, rtreeValueDown(maxY)}, [2]float32{inf, inf},
+		func(_, _ [2]float32, o *object.Object) bool {
+			maxY = boundsMax(maxY, o.Rect().Max.Y)
+			return true
+		})
+	return minX, minY, maxX, maxY
+}
+
+// boundsMin and boundsMax ignore NaN (the polygon of a circle that touches a
+// pole has NaN vertices).
+func boundsMin(a, b float64) float64 {
+	if math.IsNaN(b) || a <= b {
+		return a
+	}
+	return b
+}
+
+func boundsMax(a, b float64) float64 {
+	if math.IsNaN(b) || a >= b {
+		return a
+	}
+	return b
 }
 
 func (c *Collection) indexDelete(item *object.Object) {
